@@ -871,6 +871,314 @@ impl<'a> Gen<'a> {
                 self.push(Step::new(cl, op).a(which, salt, 0).s(s.clone()).t(t));
                 self.push(Step::new(cl, StrInRe).a(which, salt, 0).s(s));
             }
+            27..=30 => {
+                // assorted small shapes (each one a family that a seeded change needed)
+                let qcode = |g: &Self, code: u32| -> u32 {
+                    if g.single_cells.is_empty() { 0 } else { g.single_cells[code as usize % g.single_cells.len()] * 3 }
+                };
+                match self.rng.below(8) {
+                    7 => {
+                        // a wide frontier of dead chains next to one live route that passes through
+                        // two spellings of the same language behind different letters
+                        let ns = self.nsingles.max(1);
+                        let y: Vec<u32> = vec![self.single_code(), self.single_code()];
+                        self.push(Step::new(cl, Str).s(y.clone()));
+                        let hy = self.last(c);
+                        self.push(Step::new(cl, All));
+                        let fl = self.last(c);
+                        self.push(Step::new(cl, Char).a(y[1], 0, 0));
+                        let hb = self.last(c);
+                        self.push(Step::new(cl, ConcatList).l(vec![fl, hb, fl]));
+                        let z = self.last(c);
+                        self.push(Step::new(cl, Inter).a(hy, z, 0));
+                        let t = self.last(c);
+                        let c0 = self.single_code();
+                        let c1 = (c0 + 1) % ns;
+                        self.push(Step::new(cl, Char).a(c0, 0, 0));
+                        let h0 = self.last(c);
+                        self.push(Step::new(cl, Char).a(c1, 0, 0));
+                        let h1 = self.last(c);
+                        self.push(Step::new(cl, Concat).a(h0, hy, 0));
+                        let l = self.last(c);
+                        self.push(Step::new(cl, Concat).a(h1, t, 0));
+                        let r = self.last(c);
+                        self.push(Step::new(cl, Union).a(l, r, 0));
+                        let p = self.last(c);
+                        let zc = self.single_code();
+                        let plen = 2 + self.rng.below(2) as usize;
+                        self.push(Step::new(cl, Str).s(vec![zc; plen]));
+                        let pre = self.last(c);
+                        self.push(Step::new(cl, Concat).a(pre, p, 0));
+                        let live = self.last(c);
+                        // dead part: words (xy)^3 over letters other than the prefix letter,
+                        // intersected with "contains a letter that no word has"
+                        let hash = (zc + 1) % ns;
+                        let letters: Vec<u32> = (0..ns).filter(|&q| q != zc && q != hash).take(7).collect();
+                        let mut ws: Vec<u32> = Vec::new();
+                        for &a in &letters {
+                            for &b in &letters {
+                                if ws.len() < 40 {
+                                    self.push(Step::new(cl, Str).s(vec![a, b, a, b, a, b]));
+                                    ws.push(self.last(c));
+                                }
+                            }
+                        }
+                        if ws.is_empty() {
+                            self.push(Step::new(cl, Str).s(vec![zc, hash]));
+                            ws.push(self.last(c));
+                        }
+                        self.push(Step::new(cl, UnionList).l(ws));
+                        let words = self.last(c);
+                        self.push(Step::new(cl, Char).a(hash, 0, 0));
+                        let hh = self.last(c);
+                        self.push(Step::new(cl, ConcatList).l(vec![fl, hh, fl]));
+                        let with_hash = self.last(c);
+                        self.push(Step::new(cl, Inter).a(words, with_hash, 0));
+                        let dead = self.last(c);
+                        self.push(Step::new(cl, Union).a(live, dead, 0));
+                        let e = self.last(c);
+                        self.push(Step::new(cl, GetString).a(e, 0, 0));
+                        self.push(Step::new(cl, IsEmpty).a(e, 0, 0));
+                    }
+                    0 => {
+                        // a language covered jointly by two subtracted ones, by neither alone
+                        let a = self.single_code();
+                        let lo = self.rng.below(self.ncells.saturating_sub(1).max(1) as u64) as u32;
+                        self.push(Step::new(cl, Char).a(a, 0, 0));
+                        let ha = self.last(c);
+                        let mk = |g: &mut Self, x: u32, y: u32| -> u32 {
+                            g.push(Step::new(cl, Range).a(x, y, 0));
+                            let r = g.last(c);
+                            g.push(Step::new(cl, Concat).a(ha, r, 0));
+                            g.last(c)
+                        };
+                        let big = mk(self, lo, lo + 1);
+                        let b1 = mk(self, lo, lo);
+                        let b2 = mk(self, lo + 1, lo + 1);
+                        self.push(Step::new(cl, DiffList).a(big, 0, 0).l(vec![b1, b2]));
+                        let d1 = self.last(c);
+                        self.push(Step::new(cl, Diff).a(big, b1, 0));
+                        let t = self.last(c);
+                        self.push(Step::new(cl, Diff).a(t, b2, 0));
+                        let d2 = self.last(c);
+                        let qa = qcode(self, a);
+                        for d in [d1, d2] {
+                            self.push(Step::new(cl, StartChar).a(d, qa, 0));
+                            let kk = self.rng.below(3) as u32;
+                            self.push(Step::new(cl, StartClass).a(d, kk, 0));
+                            self.push(Step::new(cl, IsEmpty).a(d, 0, 0));
+                        }
+                    }
+                    1 => {
+                        // long runs of one letter and long tilings against a loop over a short word
+                        let x = self.single_code();
+                        let y = x + 1;
+                        let len = 2 + self.rng.below(2) as usize;
+                        let w: Vec<u32> = (0..len).map(|_| if self.rng.chance(2, 3) { x } else { y }).collect();
+                        self.push(Step::new(cl, Str).s(w.clone()));
+                        let hw = self.last(c);
+                        let op = if self.rng.chance(1, 2) { Plus } else { Star };
+                        self.push(Step::new(cl, op).a(hw, 0, 0));
+                        let mut pat = self.last(c);
+                        if self.rng.chance(1, 2) {
+                            let tail: Vec<u32> = (0..1 + self.rng.below(2)).map(|_| if self.rng.chance(1, 2) { x } else { y }).collect();
+                            self.push(Step::new(cl, Str).s(tail));
+                            let th = self.last(c);
+                            self.push(Step::new(cl, Concat).a(pat, th, 0));
+                            pat = self.last(c);
+                        }
+                        let (qx, qy) = (qcode(self, x), qcode(self, y));
+                        let n = 16 + self.rng.below(30) as usize;
+                        let run: Vec<u32> = vec![qx; n];
+                        let mut tiled: Vec<u32> = Vec::new();
+                        while tiled.len() < 33 + self.rng.below(20) as usize {
+                            for &ch in &w {
+                                tiled.push(if ch == x { qx } else { qy });
+                            }
+                        }
+                        if self.rng.chance(1, 2) {
+                            tiled.insert(0, qy);
+                        }
+                        let salt = self.rng.u32();
+                        for sj in [run, tiled] {
+                            self.push(Step::new(cl, StrInRe).a(pat, salt, 0).s(sj.clone()));
+                            self.push(Step::new(cl, StrDeriv).a(pat, 0, 0).s(sj.clone()));
+                            if self.mgr[c] == 0 {
+                                let t = self.cstr();
+                                self.push(Step::new(cl, Replace).a(pat, salt, 0).s(sj.clone()).t(t.clone()));
+                                self.push(Step::new(cl, ReplaceAll).a(pat, salt, 0).s(sj).t(t));
+                            }
+                        }
+                    }
+                    2 => {
+                        // two unions of 8-9 words each, a mutually subsumed pair split between them
+                        // (distinct words over whatever singleton cells the run has)
+                        let ns = self.nsingles.max(1) as u64;
+                        let mut words: Vec<Vec<u32>> = Vec::new();
+                        let mut len = 2u32;
+                        while words.len() < 17 {
+                            let total = ns.saturating_pow(len).min(64);
+                            for idx in 0..total {
+                                let mut w = Vec::new();
+                                let mut x = idx;
+                                for _ in 0..len {
+                                    w.push((x % ns) as u32);
+                                    x /= ns;
+                                }
+                                words.push(w);
+                                if words.len() >= 17 {
+                                    break;
+                                }
+                            }
+                            len += 1;
+                        }
+                        let pick = self.rng.below(words.len() as u64) as usize;
+                        words.swap(0, pick);
+                        let t_word = words[0].clone();
+                        let mut u1: Vec<u32> = Vec::new();
+                        let mut u2: Vec<u32> = Vec::new();
+                        for (n, w) in words.iter().enumerate().skip(1).take(16) {
+                            self.push(Step::new(cl, Str).s(w.clone()));
+                            if n % 2 == 0 { u1.push(self.last(c)) } else { u2.push(self.last(c)) }
+                        }
+                        self.push(Step::new(cl, Char).a(t_word[0], 0, 0));
+                        let first = self.last(c);
+                        self.push(Step::new(cl, All));
+                        let fl = self.last(c);
+                        self.push(Step::new(cl, Concat).a(first, fl, 0));
+                        let yy = self.last(c);
+                        // the plain spelling is created last among its union's members
+                        self.push(Step::new(cl, Str).s(t_word.clone()));
+                        let t = self.last(c);
+                        self.push(Step::new(cl, Inter).a(t, yy, 0));
+                        let ti = self.last(c);
+                        if self.rng.chance(1, 2) {
+                            u1.push(t);
+                            u2.push(ti);
+                        } else {
+                            u1.push(ti);
+                            u2.push(t);
+                        }
+                        self.push(Step::new(cl, UnionList).l(u1));
+                        let h1 = self.last(c);
+                        self.push(Step::new(cl, UnionList).l(u2));
+                        let h2 = self.last(c);
+                        let (a1, a2) = if self.rng.chance(1, 2) { (h1, h2) } else { (h2, h1) };
+                        self.push(Step::new(cl, Union).a(a1, a2, 0));
+                        let u = self.last(c);
+                        let qs: Vec<u32> = t_word.iter().map(|&ch| qcode(self, ch)).collect();
+                        let salt = self.rng.u32();
+                        self.push(Step::new(cl, StrInRe).a(u, salt, 0).s(qs));
+                        self.push(Step::new(cl, IncludedIn).a(t, u, 0));
+                    }
+                    3 => {
+                        // a nullable head whose classes, together with the tail's, tile the alphabet
+                        let k = self.ncells;
+                        let m = self.rng.below(k.saturating_sub(1).max(1) as u64) as u32;
+                        self.push(Step::new(cl, Range).a((m + 1).min(k - 1), k - 1, 0));
+                        let hi_r = self.last(c);
+                        let hop = [Opt, Star, Plus][self.rng.below(3) as usize];
+                        self.push(Step::new(cl, hop).a(hi_r, 0, 0));
+                        let head = self.last(c);
+                        self.push(Step::new(cl, Range).a(0, m, 0));
+                        let lo_r = self.last(c);
+                        let xx = self.single_code();
+                        self.push(Step::new(cl, Char).a(xx, 0, 0));
+                        let hx = self.last(c);
+                        self.push(Step::new(cl, Concat).a(lo_r, hx, 0));
+                        let tail = self.last(c);
+                        self.push(Step::new(cl, Concat).a(head, tail, 0));
+                        let e = self.last(c);
+                        let salt = self.rng.u32();
+                        for _ in 0..4 {
+                            let len = 1 + self.rng.below(3);
+                            let w: Vec<u32> = (0..len).map(|_| self.point_code()).collect();
+                            self.push(Step::new(cl, StrInRe).a(e, salt, 0).s(w));
+                        }
+                        let pc = self.point_code();
+                        self.push(Step::new(cl, CharDeriv).a(e, pc, 0));
+                        self.push(Step::new(cl, ClassInfo).a(e, 0, 0));
+                        let kk = self.rng.below(4) as u32;
+                        self.push(Step::new(cl, StartClass).a(e, kk, 0));
+                    }
+                    4 => {
+                        // a short rigid prefix in front of 15-20 alternatives with distinct tails
+                        let base = self.single_code();
+                        let n = 15 + self.rng.below(6) as u32;
+                        let mut alts: Vec<u32> = Vec::new();
+                        for i in 0..n {
+                            if i == 0 {
+                                self.push(Step::new(cl, Char).a(base, 0, 0));
+                            } else {
+                                self.push(Step::new(cl, Str).s(vec![base + i, base + i + 7]));
+                            }
+                            alts.push(self.last(c));
+                        }
+                        self.push(Step::new(cl, UnionList).l(alts));
+                        let un = self.last(c);
+                        let pl = 1 + self.rng.below(2) as usize;
+                        self.push(Step::new(cl, Str).s(vec![base; pl]));
+                        let pre = self.last(c);
+                        self.push(Step::new(cl, Concat).a(pre, un, 0));
+                        let e = self.last(c);
+                        let r = self.rng.u32();
+                        self.push(Step::new(cl, Closure).a(e, r % 32, 0));
+                        self.push(Step::new(cl, Compile).a(e, r, 0));
+                    }
+                    5 => {
+                        // behind different first letters: a complemented word and a plain word that
+                        // start with the same letter
+                        let x = self.single_code();
+                        let (y, b) = (x + 1, x + 2);
+                        self.push(Step::new(cl, Str).s(vec![b, x]));
+                        let w1 = self.last(c);
+                        self.push(Step::new(cl, Compl).a(w1, 0, 0));
+                        let nw1 = self.last(c);
+                        self.push(Step::new(cl, Str).s(vec![b, y]));
+                        let w2 = self.last(c);
+                        self.push(Step::new(cl, Char).a(x, 0, 0));
+                        let hx = self.last(c);
+                        self.push(Step::new(cl, Char).a(y, 0, 0));
+                        let hy = self.last(c);
+                        self.push(Step::new(cl, Concat).a(hx, nw1, 0));
+                        let l = self.last(c);
+                        self.push(Step::new(cl, Concat).a(hy, w2, 0));
+                        let r = self.last(c);
+                        let (l, r) = if self.rng.chance(1, 2) { (l, r) } else { (r, l) };
+                        self.push(Step::new(cl, Union).a(l, r, 0));
+                        let e = self.last(c);
+                        let salt = self.rng.u32();
+                        self.push(Step::new(cl, Compile).a(e, salt, 0));
+                        let w: Vec<u32> = vec![qcode(self, y), self.point_code()];
+                        self.push(Step::new(cl, StrInRe).a(e, salt, 0).s(w));
+                        self.push(Step::new(cl, Closure).a(e, salt % 16, 0));
+                    }
+                    _ => {
+                        // intersections that contain both Sigma (one character) and epsilon next to
+                        // nullable members, associated in different ways
+                        let h = self.h(c);
+                        self.push(Step::new(cl, Star).a(h, 0, 0));
+                        let sh = self.last(c);
+                        let mut rs: Vec<u32> = Vec::new();
+                        self.push(Step::new(cl, InterList).l(vec![2, 1, sh]));
+                        rs.push(self.last(c));
+                        self.push(Step::new(cl, Inter).a(2, sh, 0));
+                        let t = self.last(c);
+                        self.push(Step::new(cl, Inter).a(t, 1, 0));
+                        rs.push(self.last(c));
+                        self.push(Step::new(cl, Inter).a(sh, 1, 0));
+                        let t2 = self.last(c);
+                        self.push(Step::new(cl, Inter).a(2, t2, 0));
+                        rs.push(self.last(c));
+                        for r in rs {
+                            let salt = self.rng.u32();
+                            self.push(Step::new(cl, StrInRe).a(r, salt, 0).s(vec![]));
+                            self.push(Step::new(cl, IsEmpty).a(r, 0, 0));
+                        }
+                        self.push(Step::new(cl, EqCheck).a(self.last(c), self.last(c).saturating_sub(2), 0));
+                    }
+                }
+            }
             21 | 22 => {
                 // alternatives that share a first character, under complement and De Morgan shapes:
                 // the union that the inclusion test has to get right appears only in a derivative
@@ -1679,7 +1987,7 @@ pub fn generate(seed: u64, prop: Prop) -> Trace {
         big_loops,
         mid_loops,
         force_many: false,
-        idiom_kinds: std::env::var("SMTSIM_DEBUG_IDIOM_KINDS").ok().and_then(|x| x.parse().ok()).unwrap_or(27),
+        idiom_kinds: std::env::var("SMTSIM_DEBUG_IDIOM_KINDS").ok().and_then(|x| x.parse().ok()).unwrap_or(31),
         burst: 0,
         burst_client: 0,
         burst_done: false,
